@@ -122,19 +122,18 @@ End RcShape.
 Lemma wb_inl_erase e : forall conv, inl_erase (fst (wb_inl e conv)) = inl_erase e.
 Proof.
   induction e as [s|s|b|s|s|l|k c IH] using inl_ind'; intros conv; try reflexivity.
-  cbn [wb_inl].
+  destruct k as [| | |dest title|dest title|dest|dest]; try reflexivity;
+  cbn [wb_inl];
   set (go := (fix go (l : list inl) (conv : str) : list inl * str :=
            match l with
            | [] => ([], conv)
            | x :: r => let '(a, c1) := wb_inl x conv in let '(b, c2) := go r c1 in (a :: b, c2)
            end)).
-  assert (G : forall cv, map inl_erase (fst (go c cv)) = map inl_erase c).
-  { induction IH as [|x l Hx _ IHl]; intros cv; [reflexivity|].
-    cbn. destruct (wb_inl x cv) as [a c1] eqn:Ea. destruct (go l c1) as [b c2] eqn:Eb. cbn.
-    f_equal.
-    - pose proof (Hx cv) as Q. now rewrite Ea in Q.
-    - pose proof (IHl c1) as Q. now rewrite Eb in Q. }
-  specialize (G conv). destruct (go c conv) as [c' rest]. cbn in *. now f_equal.
+  all: assert (G : forall cv, map inl_erase (fst (go c cv)) = map inl_erase c) by
+    (induction IH as [|x l Hx _ IHl]; intros cv; [reflexivity|];
+     cbn; destruct (wb_inl x cv) as [a c1] eqn:Ea; destruct (go l c1) as [b c2] eqn:Eb; cbn;
+     f_equal; [pose proof (Hx cv) as Q; now rewrite Ea in Q|pose proof (IHl c1) as Q; now rewrite Eb in Q]).
+  all: specialize (G conv); destruct (go c conv) as [c' rest]; cbn in *; now f_equal.
 Qed.
 
 (* across-inlines rewrite: only RawText strings can change, the tree shape and every literal
@@ -234,7 +233,7 @@ Section RenderFacts.
     intros W H. destruct l; cbn [render_leaf] in H.
     - destruct (render_inls refdefs false c []) as [tx cx]. unfold bind in H.
       destruct (wrapper _ _ _); [|discriminate]. injection H as <- _. ends.
-    - destruct (render_inls refdefs true c []) as [tx0 cx]. set (tx := join_soft_breaks None tx0) in *.
+    - destruct (render_inls refdefs true c []) as [tx0 cx]. set (tx := escape_closing_hashes (join_soft_breaks None tx0)) in *.
       destruct (endswith tx [bsl]); injection H as <- _.
       + ends.
       + ends.
@@ -243,8 +242,8 @@ Section RenderFacts.
     - destruct (r_skip st); injection H as <- _; [now left|].
       destruct (strip (r_prefix st)); ends.
     - injection H as <- _. ends.
-    - destruct rows as [|head body]; [discriminate|].
-      destruct (render_row refdefs head (r_cur st)) as [h c1].
+    - cbv zeta in H. destruct rows as [|head body]; [discriminate|].
+      destruct (render_row refdefs head _) as [h c1].
       destruct (render_rows refdefs body c1) as [b c2].
       injection H as <- _.
       destruct (removelast _) as [|l0 rest]; [now left|].
